@@ -4,6 +4,7 @@ use serde_json::Value;
 pub type AreaFn = fn(&Value) -> Vec<Value>;
 
 mod net20;
+mod net21;
 mod ows;
 mod time;
 
@@ -12,6 +13,7 @@ pub fn lookup(name: &str) -> Option<AreaFn> {
         "time" => Some(time::run),
         "ows" => Some(ows::run),
         "net20" => Some(net20::run),
+        "net21" => Some(net21::run),
         _ => None,
     }
 }
